@@ -78,6 +78,36 @@ fn explicit_value(rng: &mut Rng, p: &Pair) -> Option<(String, Variant)> {
     Some((ser.name.to_string(), v))
 }
 
+/// every property name of the class chain that resolves to the canonical descriptor of the pair's NEW property and is not
+/// itself a migrating legacy name (e.g. Color3uint8 and Color for BasePart.Color)
+fn new_spellings(p: &Pair) -> Vec<String> {
+    let Some(target) = find_canonical_property_descriptor(&p.class, &p.new, db()) else { return vec![] };
+    let mut out = Vec::new();
+    let mut cur = db().classes.get(p.class.as_str());
+    let mut guard = 0;
+    while let Some(c) = cur {
+        let mut names: Vec<_> = c.properties.keys().map(|k| k.to_string()).collect();
+        names.sort();
+        for n in names {
+            let d = &c.properties[n.as_str()];
+            if matches!(&d.kind, PropertyKind::Canonical { serialization: PropertySerialization::Migrate(_) }) {
+                continue;
+            }
+            if let Some(cd) = find_canonical_property_descriptor(&p.class, &n, db()) {
+                if cd.name == target.name && !out.contains(&n) {
+                    out.push(n);
+                }
+            }
+        }
+        cur = c.superclass.as_ref().and_then(|s| db().classes.get(s.as_ref()));
+        guard += 1;
+        if guard > 64 {
+            break;
+        }
+    }
+    out
+}
+
 fn tokens(v: &Variant) -> String {
     val::value_string(v, &mut RefCtx::new())
 }
@@ -91,13 +121,20 @@ pub fn cases(rng: &mut Rng, n: u64) -> Vec<Vec<String>> {
             let explicit = explicit_value(rng, p);
             let migline = format!("mig {} {} {}", val::hex(p.class.as_bytes()), val::hex(p.old.as_bytes()), val::hex(p.new.as_bytes()));
             // ---- write path, without and with the explicit new property (under the new canonical name, canonical type)
-            for with_new in [false, true] {
+            // ... and under every other spelling (alias, serialized name) that resolves to the same new property
+            let mut spellings: Vec<Option<String>> = vec![None, Some(p.new.clone())];
+            for s in new_spellings(p) {
+                if s != p.new {
+                    spellings.push(Some(s));
+                }
+            }
+            for with_new in spellings {
                 let mut f = Forest::default();
                 let mut props = vec![(p.old.clone(), v.clone())];
                 let mut extra = vec![migline.clone(), format!("miglegacy {}", tokens(&v))];
-                if with_new {
+                if let Some(spelling) = &with_new {
                     if let Some((_, w)) = &explicit {
-                        props.push((p.new.clone(), w.clone()));
+                        props.push((spelling.clone(), w.clone()));
                         extra.push(format!("migexplicit {}", tokens(w)));
                     } else {
                         continue;
@@ -205,7 +242,7 @@ fn check(id: &str, path: &str, lines: &[String], d: &Dec, stats: &mut BTreeMap<S
             Dec::Err(m) => format!("decode error: {}", m.chars().take(120).collect::<String>()),
             Dec::Panic(m) => format!("decode panic: {m}"),
         };
-        out.push(format!("{id} C15 unmigratable {what}: the database allows this legacy value but PropertyMigration::perform rejects it; {outcome}"));
+        out.push(format!("{id} C15 {} {what}: the database allows this legacy value but PropertyMigration::perform rejects it; {outcome}", crate::binoracle::unmig_key(&c.legacy)));
         return;
     }
     let dd = match d {
